@@ -3,7 +3,7 @@ from .common import *
 
 RULE = ("keys: all 6 hashes x parameter lists of 1..8 levels (H2 hook height and H5, W1..W8, uniform and mixed); counters: 0, 1, "
         "every radix boundary +-1, last, random; messages of lengths {0,1,..,4096}; every released signature is verified "
-        "through hss_verify, Signature+VerifyingKey and VerifierSignature+VerifyingKey")
+        "through hss_verify, Signature+VerifyingKey and VerifierSignature+VerifyingKey; plus message lengths 0, 255..257, 65535..65537, 100000")
 ASSUMPTIONS = ["the Impl model is hand-written; agreement with the library is shown only on the cases run",
                "hash functions are arbitrary functions of fixed output length in every theorem"]
 
@@ -79,6 +79,12 @@ def run(ctx):
             sign_cases.append(Case(sign_line(k.H, k.blob(c), msg), "sign/L%d/%s" % (len(k.params), "rollover" if c and any(
                 c % (1 << sum(k.heights[i:])) == 0 for i in range(1, len(k.heights))) else "plain"),
                 {"key": k, "c": c, "msg": msg, "n": k.n}))
+    # message lengths at integer-width boundaries (and the empty message), on a few keys
+    for k in rng.sample(keys, min(len(keys), 3 if ctx.tier == "quick" else 8)):
+        for ml in (0, 255, 256, 257, 65535, 65536, 65537, 100000):
+            c = rng.randrange(k.lifetime)
+            msg = rng.bytes_(ml)
+            sign_cases.append(Case(sign_line(k.H, k.blob(c), msg), "sign/message-length-boundary", {"key": k, "c": c, "msg": msg, "n": k.n}))
     ver_cases = []
     for c, a, b in ctx.both(sign_cases, proj):
         k = c.meta["key"]
